@@ -47,7 +47,11 @@ CLAIMED["C03"] = dict(
        "the rest is a gap-free chained extension by really precommitted txs; proofs, index, new commits fine). MCStore.tla is model-checked exhaustively. "
        "spec/StoreCrash.tla (physical model: tx log / commit log / value log as buffered files written at offsets, sync() in six steps, discard, kill / power-loss crashes, "
        "restart, OpenWith's recovery transcribed) is model-checked exhaustively (1-2 crashes), two anchor defects must be found by TLC, and behaviours printed by TLC -simulate "
-       "are replayed on the real store (harness/cmd/c03 -scripts): the recovered frontier and transactions must be exactly the ones the model's Recover computes.",
+       "are replayed on the real store (harness/cmd/c03 -scripts): the recovered frontier and transactions must be exactly the ones the model's Recover computes. "
+       "Index tree: spec/IndexCrash.tla (nodes / history / commit log of embedded/tbtree as position -> generation files, the fsync points of a synced flush, logical-only "
+       "rewinds, OpenWith's backwards walk, wiping of discarded entries; kill and power loss keeping any subset of un-fsynced chunks or tearing them, repeated stops, clean "
+       "closes) is model-checked exhaustively; two code variants must be rejected by TLC and every rejected behaviour of them plus simulated behaviours of the design are "
+       "replayed on the real tree (harness/cmd/c03idx): the recovered tree must be exactly one flushed generation, not older than the last acknowledged synced flush.",
   design_ref="DESIGN.md §4 C03",
   note="Crash model: per-file prefix of un-fsynced writes + torn last write, no reordering inside a file, directory entries durable after SyncDir (what the code assumes). "
        "Repeated crashes: second-level enumeration on sampled first-level images (incl. crash points during the recovery run) and two-crash behaviours of StoreCrash. "
